@@ -485,10 +485,13 @@ class SourceCatalog:
         init_attr = ('_data', '_segment_img', '_error', '_mask', '_background',
                      'wcs', '_data_unit', '_convolved_data', 'localbkg_width',
                      'apermask_method', 'kron_params', 'default_columns',
-                     '_extra_properties', 'meta', '_apermask_kwargs',
-                     'progress_bar')
+                     'meta', '_apermask_kwargs', 'progress_bar')
         for attr in init_attr:
             setattr(newcls, attr, getattr(self, attr))
+
+        # the list of extra properties must not be shared with the
+        # parent catalog
+        newcls._extra_properties = self._extra_properties.copy()
 
         # _labels determines ordering and isscalar
         attr = '_labels'
